@@ -1,9 +1,550 @@
-/- C18 — executable model (core Lean only).  Stub. -/
+/-
+C18 — executable model of the vertex finders (modify/find/finder.py, geometric.py, shape.py,
+util/functions.py: is_point_on_plane) and of the view-point re-orienter
+(modify/reorient/viewpoint.py, as it is after the repairs: result check, handedness swap, 60° limit
+between the two triangles of a face).
+Core Lean only.  Square roots never appear: every comparison of the code that involves a norm
+or a unit vector is replaced by the equivalent comparison of squares (sign aware).
+-/
 import CBV.Model.Common
 import CBV.Gen.Tables
 
 namespace CBV.C18
 
-def handle (_op : String) (_args : List String) : Option String := none
+/-! ## finders -/
+
+/-- `constants.TOL` (exact rational image of the float, from the generated table). -/
+def tol : Rat := mkRat (CBV.Gen.c18Tol.1 : Int) CBV.Gen.c18Tol.2
+
+def dist2 (a b : V3) : Rat := V3.norm2 (a - b)
+
+/-- `f.norm(vertex.position - position) < radius` (never true for a radius ≤ 0). -/
+def inSphere (c : V3) (r : Rat) (v : V3) : Prop := 0 < r ∧ dist2 v c < r * r
+
+instance (c : V3) (r : Rat) (v : V3) : Decidable (inSphere c r v) := by unfold inSphere; infer_instance
+
+/-- `f.is_point_on_plane(origin, normal, point)`:
+    `norm(origin - point) < TOL` (coincident-origin shortcut) or `|dot(point - origin, unit(normal))| < TOL`.
+    For `normal = 0` the code computes `nan < TOL`, which is false — so is `0 < 0`. -/
+def onPlane (o n v : V3) : Prop :=
+  dist2 o v < tol * tol ∨ V3.dot (v - o) n * V3.dot (v - o) n < tol * tol * V3.norm2 n
+
+instance (o n v : V3) : Decidable (onPlane o n v) := by unfold onPlane; infer_instance
+
+/-- A finder is a filter over the vertex list; the answer is the list of vertex indices. -/
+def findIdx (p : V3 → Bool) (vs : List V3) : List Nat :=
+  (List.range vs.length).filter (fun i => p (vs.getD i V3.zero))
+
+/-- `GeometricFinder.find_in_sphere` (`radius = none` is the default `TOL`). -/
+def findInSphere (vs : List V3) (c : V3) (r : Option Rat) : List Nat :=
+  findIdx (fun v => decide (inSphere c (r.getD tol) v)) vs
+
+/-- `GeometricFinder.find_on_plane`. -/
+def findOnPlane (vs : List V3) (o n : V3) : List Nat :=
+  findIdx (fun v => decide (onPlane o n v)) vs
+
+/-- two positions are the same to the merge tolerance: `f.norm(a - b) < TOL` -/
+def near (a b : V3) : Prop := dist2 a b < tol * tol
+
+instance (a b : V3) : Decidable (near a b) := by unfold near; infer_instance
+
+/-- `RoundSolidFinder._find_from_points`: every vertex within TOL of one of the points. -/
+def findFromPoints (vs : List V3) (ps : List V3) : List Nat :=
+  findIdx (fun v => ps.any (fun p => decide (near v p))) vs
+
+/-- A round sketch as far as the finder is concerned (generated table entry). -/
+structure Sketch where
+  name : String
+  quads : List (List Nat)
+  core : List Nat
+  shell : List Nat
+  r2 : List Nat
+  deriving Repr, DecidableEq
+
+def Sketch.ofEntry (e : String × List (List Nat) × List Nat × List Nat × List Nat) : Sketch :=
+  ⟨e.1, e.2.1, e.2.2.1, e.2.2.2.1, e.2.2.2.2⟩
+
+def sketches : List Sketch := CBV.Gen.c18Sketches.map Sketch.ofEntry
+
+def sketchOf (name : String) : Option Sketch := sketches.find? (fun s => s.name == name)
+
+/-- point numbers of all points of the core faces (`_find_from_faces(sketch.core)`) -/
+def Sketch.corePts (s : Sketch) : List Nat := s.core.flatMap (fun f => s.quads.getD f [])
+
+/-- point numbers of `face.points[1:3]` of the shell faces (`find_shell` after the repair) -/
+def Sketch.shellOuterPts (s : Sketch) : List Nat :=
+  s.shell.flatMap (fun f => ((s.quads.getD f []).drop 1).take 2)
+
+def pickPts (pts : List V3) (idx : List Nat) : List V3 := idx.map (fun i => pts.getD i V3.zero)
+
+/-- `RoundSolidFinder.find_core` on the end face whose sketch points are `pts`. -/
+def findCore (vs : List V3) (s : Sketch) (pts : List V3) : List Nat :=
+  findFromPoints vs (pickPts pts s.corePts)
+
+/-- `RoundSolidFinder.find_shell`. -/
+def findShell (vs : List V3) (s : Sketch) (pts : List V3) : List Nat :=
+  findFromPoints vs (pickPts pts s.shellOuterPts)
+
+/-! ### what "core" and "outer rim" mean, independently of the quad tables -/
+
+def Sketch.nPts (s : Sketch) : Nat := s.r2.length
+
+def Sketch.rMax (s : Sketch) : Nat := s.r2.foldl max 0
+
+/-- point `k` lies on the outer rim of the sketch: at the largest distance from the centre (within 0.1 %) -/
+def Sketch.isRim (s : Sketch) (k : Nat) : Bool := decide (k < s.nPts) && decide (999 * s.rMax ≤ 1000 * s.r2.getD k 0)
+
+/-- a solid two-ring sketch: it has a core and every face belongs to the core or to the shell -/
+def Sketch.solid (s : Sketch) : Bool := !s.core.isEmpty && s.core.length + s.shell.length == s.quads.length
+
+/-- the table facts the round-shape finder relies on: the points `[1:3]` of the shell faces are exactly the rim
+    points, no core point lies on the rim and, for solid sketches, every other point belongs to the core -/
+def shapeOk (s : Sketch) : Bool :=
+  (List.range s.nPts).all (fun k =>
+      (s.shellOuterPts.contains k == s.isRim k) && !(s.corePts.contains k && s.isRim k)
+        && (!s.solid || s.corePts.contains k || s.isRim k))
+    && s.shellOuterPts.all (fun k => decide (k < s.nPts)) && s.corePts.all (fun k => decide (k < s.nPts))
+
+/-! ## view-point re-orientation -/
+
+inductive Err where
+  | notConvex    -- `DegenerateGeometryError("The operation is not convex!")`
+  | degenerate   -- every other `DegenerateGeometryError`
+  | index        -- `IndexError` of `common_2[0]`
+  | badView      -- observer at the centre / ceiling on the observer's axis: the code computes with nan (not modelled)
+  deriving DecidableEq, Repr
+
+def Err.toStr : Err → String
+  | .notConvex => "notconvex"
+  | .degenerate => "degenerate"
+  | .index => "index"
+  | .badView => "badview"
+
+/-- `Triangle`: three points. -/
+structure Tri where
+  p0 : V3
+  p1 : V3
+  p2 : V3
+  deriving DecidableEq, Repr
+
+def Tri.points (t : Tri) : List V3 := [t.p0, t.p1, t.p2]
+
+/-- `Triangle.normal` without the normalisation. -/
+def Tri.normalRaw (t : Tri) : V3 := V3.cross (t.p1 - t.p0) (t.p2 - t.p0)
+
+/-- `Triangle.center` -/
+def Tri.center (t : Tri) : V3 := V3.smul (1 / 3) (t.p0 + t.p1 + t.p2)
+
+/-- `Triangle.flip`: `np.flip(points, axis=0)` -/
+def Tri.flip (t : Tri) : Tri := ⟨t.p2, t.p1, t.p0⟩
+
+/-- `Triangle.orient(hull_center)`; the sign of `dot(center - hull_center, normal)` does not depend on
+    the normalisation of the normal. -/
+def Tri.orient (t : Tri) (c : V3) : Tri :=
+  if V3.dot (t.center - c) t.normalRaw < 0 then t.flip else t
+
+def sumV (ps : List V3) : V3 := ps.foldr (fun p acc => p + acc) V3.zero
+
+/-- `np.average(points, axis=0)` -/
+def average (ps : List V3) : V3 := V3.smul (1 / (ps.length : Rat)) (sumV ps)
+
+/-- `a/√A < b/√B` for `A, B > 0`, decided without square roots. -/
+def alignLt (x y : Rat × Rat) : Prop :=
+  if x.1 < 0 then (if y.1 < 0 then y.1 * y.1 * x.2 < x.1 * x.1 * y.2 else True)
+  else (if y.1 < 0 then False else x.1 * x.1 * y.2 < y.1 * y.1 * x.2)
+
+instance (x y : Rat × Rat) : Decidable (alignLt x y) := by unfold alignLt; infer_instance
+
+/-- sort key of `_get_aligned`: `dot(t.normal, vector)` as (numerator, squared norm of the raw normal);
+    the norm of `vector` is common to all triangles and positive. -/
+def Tri.key (d : V3) (t : Tri) : Rat × Rat := (V3.dot t.normalRaw d, V3.norm2 t.normalRaw)
+
+/-- index of the (first) triangle with the largest key, scanning from position `i` -/
+def bestIdxAux (d : V3) : List Tri → Nat → Nat → Tri → Nat
+  | [], _, bi, _ => bi
+  | t :: ts, i, bi, bt => if alignLt (bt.key d) (t.key d) then bestIdxAux d ts (i + 1) i t else bestIdxAux d ts (i + 1) bi bt
+
+def bestIdx (d : V3) : List Tri → Option Nat
+  | [] => none
+  | t :: ts => some (bestIdxAux d ts 1 0 t)
+
+/-- `sorted(remaining, key)[-2:]` → (second best, best, the others). -/
+def pick2 (d : V3) (l : List Tri) : Option (Tri × Tri × List Tri) := do
+  let i ← bestIdx d l
+  let a ← l[i]?
+  let l1 := l.eraseIdx i
+  let j ← bestIdx d l1
+  let b ← l1[j]?
+  some (b, a, l1.eraseIdx j)
+
+/-- `Quadrangle.get_common_points`: `for p1 in l1: for p2 in l2: if close: append p1` -/
+def commonPoints (l1 l2 : List V3) : List V3 :=
+  l1.flatMap (fun p1 => l2.filterMap (fun p2 => if near p1 p2 then some p1 else none))
+
+/-- `Quadrangle.get_unique_points` -/
+def uniquePoints (l1 l2 : List V3) : List V3 :=
+  let cp := commonPoints l1 l2
+  (l1 ++ l2).filter (fun p => !(cp.any (fun c => decide (near p c))))
+
+/-- repair 5ddf0fe: `np.dot(t0.normal, t1.normal) < 0.5` (unit normals more than 60° apart), without square roots -/
+def tooSteep (t0 t1 : Tri) : Prop :=
+  V3.dot t0.normalRaw t1.normalRaw < 0 ∨
+    4 * (V3.dot t0.normalRaw t1.normalRaw * V3.dot t0.normalRaw t1.normalRaw) < V3.norm2 t0.normalRaw * V3.norm2 t1.normalRaw
+
+instance (t0 t1 : Tri) : Decidable (tooSteep t0 t1) := by unfold tooSteep; infer_instance
+
+/-- `Quadrangle.__init__` on `[t0, t1]`; the result is `Quadrangle.points`. -/
+def mkQuad (t0 t1 : Tri) : Except Err (List V3) :=
+  if tooSteep t0 t1 then .error .degenerate
+  else
+    let cp := commonPoints t0.points t1.points
+    if cp.length ≠ 2 then .error .degenerate
+    else
+      let up := uniquePoints t0.points t1.points
+      if up.length ≠ 2 then .error .degenerate else .ok (up ++ cp)
+
+/-- `Quadrangle.get_common_point` -/
+def commonPoint (q q1 q2 : List V3) : Except Err V3 :=
+  let c2 := commonPoints (commonPoints q q1) q2
+  if c2.length > 1 then .error .degenerate
+  else match c2 with
+    | [] => .error .index
+    | p :: _ => .ok p
+
+/-- The six quads in the order the code builds them. -/
+structure Quads where
+  front : List V3
+  back : List V3
+  top : List V3
+  bottom : List V3
+  left : List V3
+  right : List V3
+  deriving Repr, DecidableEq
+
+/-- The six directions of `_get_normals`, each up to a positive factor:
+    `o = observer - centre`, `T = |o|² cd - (cd·o) o` (ceiling made perpendicular to the observer), `L = o × T`. -/
+structure Dirs where
+  o : V3
+  t : V3
+  l : V3
+  deriving Repr, DecidableEq
+
+def dirsOf (c obs ceil : V3) : Dirs :=
+  let o := obs - c
+  let cd := ceil - c
+  let t := V3.smul (V3.norm2 o) cd - V3.smul (V3.dot cd o) o
+  ⟨o, t, V3.cross o t⟩
+
+/-- one pass of the loop `for key, normal in normals.items()`: the two best aligned remaining triangles
+    become a quad -/
+def quadStep (dir : V3) (rem : List Tri) : Except Err (List V3 × List Tri) :=
+  match pick2 dir rem with
+  | none => .error .index
+  | some (b, a, rest) =>
+    match mkQuad b a with
+    | .ok q => .ok (q, rest)
+    | .error e => .error e
+
+/-- the loop of `reorient`: front, back, top, bottom, left, right (dict order, generated table `c18ViewOrder`) -/
+def quadsOf (tris : List Tri) (d : Dirs) : Except Err Quads := do
+  let x1 ← quadStep d.o tris
+  let x2 ← quadStep (-d.o) x1.2
+  let x3 ← quadStep d.t x2.2
+  let x4 ← quadStep (-d.t) x3.2
+  let x5 ← quadStep d.l x4.2
+  let x6 ← quadStep (-d.l) x5.2
+  pure ⟨x1.1, x2.1, x3.1, x4.1, x5.1, x6.1⟩
+
+/-- `sorted_points`: each corner is the common point of three quads. -/
+def cornersOf (q : Quads) : Except Err (List V3) := do
+  let p0 ← commonPoint q.bottom q.front q.left
+  let p1 ← commonPoint q.bottom q.front q.right
+  let p2 ← commonPoint q.bottom q.back q.right
+  let p3 ← commonPoint q.bottom q.back q.left
+  let p4 ← commonPoint q.top q.front q.left
+  let p5 ← commonPoint q.top q.front q.right
+  let p6 ← commonPoint q.top q.back q.right
+  let p7 ← commonPoint q.top q.back q.left
+  pure [p0, p1, p2, p3, p4, p5, p6, p7]
+
+/-- repair e299470: every original point is taken exactly once -/
+def eachOnce (pts out : List V3) : Bool :=
+  pts.all (fun q => (out.filter (fun p => decide (near p q))).length == 1)
+
+def det3 (a b c : V3) : Rat := V3.dot (V3.cross a b) c
+
+/-- repair 9e4eb19: `dot(cross(p1 - p0, p3 - p0), p4 - p0) < 0` → swap left and right -/
+def swapLR (out : List V3) : List V3 := [1, 0, 3, 2, 5, 4, 7, 6].map (fun i => out.getD i V3.zero)
+
+def fixHand (out : List V3) : List V3 :=
+  let p (i : Nat) := out.getD i V3.zero
+  if det3 (p 1 - p 0) (p 3 - p 0) (p 4 - p 0) < 0 then swapLR out else out
+
+/-- everything of `reorient` after `_make_triangles`; works with coordinates only -/
+def reorientCore (pts : List V3) (tris : List Tri) (c obs ceil : V3) : Except Err (List V3) :=
+  let d := dirsOf c obs ceil
+  if d.o = V3.zero ∨ d.t = V3.zero then .error .badView
+  else
+    match quadsOf tris d with
+    | .error e => .error e
+    | .ok q =>
+      match cornersOf q with
+      | .error e => .error e
+      | .ok out => if eachOnce pts out then .ok (fixHand out) else .error .degenerate
+
+/-- `np.take(points, indexes, axis=0)` for one simplex -/
+def triOf (pts : List V3) (s : Nat × Nat × Nat) : Tri :=
+  ⟨pts.getD s.1 V3.zero, pts.getD s.2.1 V3.zero, pts.getD s.2.2 V3.zero⟩
+
+/-- `_make_triangles` given the simplices of `scipy.spatial.ConvexHull(points)` (oracle argument) -/
+def makeTriangles (pts : List V3) (simplices : List (Nat × Nat × Nat)) : Except Err (List Tri) :=
+  if simplices.length ≠ 12 then .error .notConvex
+  else .ok ((simplices.map (triOf pts)).map (fun t => t.orient (average pts)))
+
+/-- `ViewpointReorienter(observer, ceiling).reorient(operation)`: the new `point_array`. -/
+def reorient (pts : List V3) (simplices : List (Nat × Nat × Nat)) (obs ceil : V3) : Except Err (List V3) :=
+  match makeTriangles pts simplices with
+  | .error e => .error e
+  | .ok tris => reorientCore pts tris (average pts) obs ceil
+
+/-- `p` coincides (to the merge tolerance) with a point of `l` -/
+def nearMem (p : V3) (l : List V3) : Prop := ∃ x ∈ l, near p x
+
+def Quads.get (q : Quads) : String → List V3
+  | "front" => q.front
+  | "back" => q.back
+  | "top" => q.top
+  | "bottom" => q.bottom
+  | "left" => q.left
+  | "right" => q.right
+  | _ => []
+
+/-- what the handedness repair does to the sides: left and right change places -/
+def Quads.swapLR (q : Quads) : Quads := { q with left := q.right, right := q.left }
+
+/-! ## the specification of a canonical numbering (validator) -/
+
+/-- A numbered hexahedron: corner `i` (blockMesh numbering) ↦ position; only `0..7` matter. -/
+abbrev Hex := Nat → V3
+
+def Hex.ofList (l : List V3) : Hex := fun i => l.getD i V3.zero
+
+def Hex.toList (P : Hex) : List V3 := (List.range 8).map P
+
+def relabel (P : Hex) (s : Nat → Nat) : Hex := fun i => P (s i)
+
+/-- an index list as a function -/
+def perm (l : List Nat) : Nat → Nat := fun i => l.getD i 0
+
+/-- the four corners of side `s` (0 bottom, 1 top, 2 left, 3 right, 4 front, 5 back — the order of
+    `FACE_MAP`) in the cyclic order that is counter-clockwise seen from outside a right-handed block -/
+def cyc : Nat → Nat → Nat
+  | 0, 0 => 0 | 0, 1 => 3 | 0, 2 => 2 | 0, 3 => 1
+  | 1, 0 => 4 | 1, 1 => 5 | 1, 2 => 6 | 1, 3 => 7
+  | 2, 0 => 0 | 2, 1 => 4 | 2, 2 => 7 | 2, 3 => 3
+  | 3, 0 => 1 | 3, 1 => 2 | 3, 2 => 6 | 3, 3 => 5
+  | 4, 0 => 0 | 4, 1 => 1 | 4, 2 => 5 | 4, 3 => 4
+  | 5, 0 => 2 | 5, 1 => 3 | 5, 2 => 7 | 5, 3 => 6
+  | _, _ => 0
+
+/-- twice the area vector of the quadrilateral `a b c d` (cross product of the diagonals) -/
+def quadArea (a b c d : V3) : V3 := V3.cross (c - a) (d - b)
+
+/-- outward area vector of side `s` of a right-handed block -/
+def sideNormal (P : Hex) (s : Nat) : V3 := quadArea (P (cyc s 0)) (P (cyc s 1)) (P (cyc s 2)) (P (cyc s 3))
+
+/-- the three neighbours of corner `i`, ordered so that the triple product is positive in a right-handed block -/
+def nb : Nat → Nat → Nat
+  | 0, 0 => 1 | 0, 1 => 3 | 0, 2 => 4
+  | 1, 0 => 2 | 1, 1 => 0 | 1, 2 => 5
+  | 2, 0 => 3 | 2, 1 => 1 | 2, 2 => 6
+  | 3, 0 => 0 | 3, 1 => 2 | 3, 2 => 7
+  | 4, 0 => 7 | 4, 1 => 5 | 4, 2 => 0
+  | 5, 0 => 4 | 5, 1 => 6 | 5, 2 => 1
+  | 6, 0 => 5 | 6, 1 => 7 | 6, 2 => 2
+  | 7, 0 => 6 | 7, 1 => 4 | 7, 2 => 3
+  | _, _ => 0
+
+/-- triple product of the three edges that meet in corner `i` -/
+def tp (P : Hex) (i : Nat) : Rat := det3 (P (nb i 0) - P i) (P (nb i 1) - P i) (P (nb i 2) - P i)
+
+def Hex.center (P : Hex) : V3 :=
+  V3.smul (1 / 8) (P 0 + P 1 + P 2 + P 3 + P 4 + P 5 + P 6 + P 7)
+
+/-- alignment of a side with a direction, as the pair compared by `alignLt` -/
+def sideKey (P : Hex) (d : V3) (s : Nat) : Rat × Rat := (V3.dot (sideNormal P s) d, V3.norm2 (sideNormal P s))
+
+/-- The numbering the property asks for: the front side (4) is the one whose outward unit normal has the
+    largest component towards the observer, the top side (1) the one — of the four sides around front/back —
+    with the largest component towards the ceiling direction, and all eight corner triple products are positive. -/
+structure Canonical (obs ceil : V3) (P : Hex) : Prop where
+  front : ∀ s ∈ [0, 1, 2, 3, 5], alignLt (sideKey P (dirsOf P.center obs ceil).o s) (sideKey P (dirsOf P.center obs ceil).o 4)
+  top : ∀ s ∈ [0, 2, 3], alignLt (sideKey P (dirsOf P.center obs ceil).t s) (sideKey P (dirsOf P.center obs ceil).t 1)
+  rh : ∀ i ∈ List.range 8, 0 < tp P i
+
+def frontOk (obs ceil : V3) (P : Hex) : Bool :=
+  [0, 1, 2, 3, 5].all (fun s => decide (alignLt (sideKey P (dirsOf P.center obs ceil).o s) (sideKey P (dirsOf P.center obs ceil).o 4)))
+
+def topOk (obs ceil : V3) (P : Hex) : Bool :=
+  [0, 2, 3].all (fun s => decide (alignLt (sideKey P (dirsOf P.center obs ceil).t s) (sideKey P (dirsOf P.center obs ceil).t 1)))
+
+def rhOk (P : Hex) : Bool := (List.range 8).all (fun i => decide (0 < tp P i))
+
+/-! ### the 48 relabellings of the hexahedron -/
+
+def proper24 : List (List Nat) :=
+  [[0, 1, 2, 3, 4, 5, 6, 7],
+   [0, 3, 7, 4, 1, 2, 6, 5],
+   [0, 4, 5, 1, 3, 7, 6, 2],
+   [1, 0, 4, 5, 2, 3, 7, 6],
+   [1, 2, 3, 0, 5, 6, 7, 4],
+   [1, 5, 6, 2, 0, 4, 7, 3],
+   [2, 1, 5, 6, 3, 0, 4, 7],
+   [2, 3, 0, 1, 6, 7, 4, 5],
+   [2, 6, 7, 3, 1, 5, 4, 0],
+   [3, 0, 1, 2, 7, 4, 5, 6],
+   [3, 2, 6, 7, 0, 1, 5, 4],
+   [3, 7, 4, 0, 2, 6, 5, 1],
+   [4, 0, 3, 7, 5, 1, 2, 6],
+   [4, 5, 1, 0, 7, 6, 2, 3],
+   [4, 7, 6, 5, 0, 3, 2, 1],
+   [5, 1, 0, 4, 6, 2, 3, 7],
+   [5, 4, 7, 6, 1, 0, 3, 2],
+   [5, 6, 2, 1, 4, 7, 3, 0],
+   [6, 2, 1, 5, 7, 3, 0, 4],
+   [6, 5, 4, 7, 2, 1, 0, 3],
+   [6, 7, 3, 2, 5, 4, 0, 1],
+   [7, 3, 2, 6, 4, 0, 1, 5],
+   [7, 4, 0, 3, 6, 5, 1, 2],
+   [7, 6, 5, 4, 3, 2, 1, 0]]
+
+def improper24 : List (List Nat) :=
+  [[0, 1, 5, 4, 3, 2, 6, 7],
+   [0, 3, 2, 1, 4, 7, 6, 5],
+   [0, 4, 7, 3, 1, 5, 6, 2],
+   [1, 0, 3, 2, 5, 4, 7, 6],
+   [1, 2, 6, 5, 0, 3, 7, 4],
+   [1, 5, 4, 0, 2, 6, 7, 3],
+   [2, 1, 0, 3, 6, 5, 4, 7],
+   [2, 3, 7, 6, 1, 0, 4, 5],
+   [2, 6, 5, 1, 3, 7, 4, 0],
+   [3, 0, 4, 7, 2, 1, 5, 6],
+   [3, 2, 1, 0, 7, 6, 5, 4],
+   [3, 7, 6, 2, 0, 4, 5, 1],
+   [4, 0, 1, 5, 7, 3, 2, 6],
+   [4, 5, 6, 7, 0, 1, 2, 3],
+   [4, 7, 3, 0, 5, 6, 2, 1],
+   [5, 1, 2, 6, 4, 0, 3, 7],
+   [5, 4, 0, 1, 6, 7, 3, 2],
+   [5, 6, 7, 4, 1, 2, 3, 0],
+   [6, 2, 3, 7, 5, 1, 0, 4],
+   [6, 5, 1, 2, 7, 4, 0, 3],
+   [6, 7, 4, 5, 2, 3, 0, 1],
+   [7, 3, 0, 4, 6, 2, 1, 5],
+   [7, 4, 5, 6, 3, 0, 1, 2],
+   [7, 6, 2, 3, 4, 5, 1, 0]]
+
+def sym48 : List (List Nat) := proper24 ++ improper24
+
+/-- sign pattern of a vector (to compare directions up to a positive factor) -/
+def signV (v : V3) : List Int :=
+  let sg (q : Rat) : Int := if 0 < q then 1 else if q < 0 then -1 else 0
+  [sg v.x, sg v.y, sg v.z]
+
+/-- the six view directions in the order the model's loop uses them -/
+def Dirs.all (d : Dirs) : List (String × V3) :=
+  [("front", d.o), ("back", -d.o), ("top", d.t), ("bottom", -d.t), ("left", d.l), ("right", -d.l)]
+
+/-! ## validator for the hull oracle -/
+
+/-- What is assumed of `scipy.spatial.ConvexHull(points).simplices` for a convex block, checked on the answer the
+    implementation received: 12 triangles over the eight points, every point used, every edge shared by exactly two
+    triangles (a closed surface), no degenerate triangle, and all points on one side of every triangle's plane up to
+    the relative tolerance `eps` (distance ≤ eps · diameter; squares compared, no square roots). -/
+def hullProblems (pts : List V3) (sim : List (Nat × Nat × Nat)) (eps : Rat) : List String :=
+  let n := pts.length
+  let g (i : Nat) := pts.getD i V3.zero
+  let diam2 : Rat := pts.foldl (fun m p => pts.foldl (fun m q => max m (dist2 p q)) m) 0
+  let edges := sim.flatMap (fun s => [(min s.1 s.2.1, max s.1 s.2.1), (min s.2.1 s.2.2, max s.2.1 s.2.2),
+    (min s.1 s.2.2, max s.1 s.2.2)])
+  let oneSided (s : Nat × Nat × Nat) : Bool :=
+    let t := triOf pts s
+    let nrm := t.normalRaw
+    let small (d : Rat) : Bool := decide (d * d ≤ eps * eps * V3.norm2 nrm * diam2)
+    let ds := pts.map (fun p => V3.dot nrm (p - t.p0))
+    ds.all (fun d => decide (d ≤ 0) || small d) || ds.all (fun d => decide (0 ≤ d) || small d)
+  (if sim.length = 12 then [] else ["count"]) ++
+  (if sim.all (fun s => decide (s.1 < n ∧ s.2.1 < n ∧ s.2.2 < n ∧ s.1 ≠ s.2.1 ∧ s.2.1 ≠ s.2.2 ∧ s.1 ≠ s.2.2)) then []
+    else ["index"]) ++
+  (if (List.range n).all (fun i => sim.any (fun s => s.1 == i || s.2.1 == i || s.2.2 == i)) then [] else ["point-unused"]) ++
+  (if edges.all (fun e => edges.count e == 2) then [] else ["not-closed"]) ++
+  (if sim.all (fun s => decide (0 < V3.norm2 (triOf pts s).normalRaw)) then [] else ["degenerate-triangle"]) ++
+  (if sim.all oneSided then [] else ["not-convex"]) ++
+  (if (List.range n).all (fun i => (List.range n).all (fun j => i == j || !(decide (near (g i) (g j))))) then []
+    else ["coincident-points"])
+
+/-! ## line protocol -/
+
+def parsePts? (s : String) : Option (List V3) :=
+  if s = "-" then some [] else (s.splitOn ";").mapM parseV3?
+
+def parseTri? (s : String) : Option (Nat × Nat × Nat) :=
+  match s.splitOn "-" with
+  | [a, b, c] => do
+      let a ← a.toNat?; let b ← b.toNat?; let c ← c.toNat?
+      some (a, b, c)
+  | _ => none
+
+def parseTris? (s : String) : Option (List (Nat × Nat × Nat)) :=
+  if s = "-" then some [] else (s.splitOn ";").mapM parseTri?
+
+/-- position of every output point in the input list (`8` when absent) -/
+def indicesIn (pts out : List V3) : List Nat := out.map (fun p => pts.findIdx (fun q => decide (near p q)))
+
+def handle (op : String) (args : List String) : Option String :=
+  match op, args with
+  | "c18.sphere", [c, r, vs] => do
+      let c ← parseV3? c
+      let r ← if r = "tol" then some none else (parseRat? r).map some
+      let vs ← parsePts? vs
+      some (showNatList (findInSphere vs c r))
+  | "c18.plane", [o, n, vs] => do
+      let o ← parseV3? o
+      let n ← parseV3? n
+      let vs ← parsePts? vs
+      some (showNatList (findOnPlane vs o n))
+  | "c18.shape", [name, part, pts, vs] => do
+      let s ← sketchOf name
+      let pts ← parsePts? pts
+      let vs ← parsePts? vs
+      if part = "core" then some (showNatList (findCore vs s pts))
+      else if part = "shell" then some (showNatList (findShell vs s pts))
+      else none
+  | "c18.reorient", [obs, ceil, pts, tris] => do
+      let obs ← parseV3? obs
+      let ceil ← parseV3? ceil
+      let pts ← parsePts? pts
+      let tris ← parseTris? tris
+      if pts.length ≠ 8 ∨ tris.any (fun t => t.1 ≥ 8 ∨ t.2.1 ≥ 8 ∨ t.2.2 ≥ 8) then none
+      else match reorient pts tris obs ceil with
+        | .ok out => some ("ok " ++ showNatList (indicesIn pts out))
+        | .error e => some ("err " ++ e.toStr)
+  | "c18.hull", [eps, pts, tris] => do
+      let eps ← parseRat? eps
+      let pts ← parsePts? pts
+      let tris ← parseTris? tris
+      let bad := hullProblems pts tris eps
+      some (if bad.isEmpty then "ok" else "fail " ++ ",".intercalate bad)
+  | "c18.canon", [obs, ceil, pts] => do
+      let obs ← parseV3? obs
+      let ceil ← parseV3? ceil
+      let pts ← parsePts? pts
+      if pts.length ≠ 8 then none
+      else
+        let P := Hex.ofList pts
+        let bad := (if frontOk obs ceil P then [] else ["front"]) ++ (if topOk obs ceil P then [] else ["top"])
+          ++ (if rhOk P then [] else ["handedness"])
+        some (if bad.isEmpty then "ok" else "fail " ++ ",".intercalate bad)
+  | _, _ => none
 
 end CBV.C18
